@@ -642,11 +642,132 @@ func dkgDrive(run *mon.Run, which string) {
 	run.Require(run.SetLen("delivery-orders") >= len(scs)/2, "too few distinct delivery orders")
 }
 
+// dkgLargeGroups: honest dealings in groups up to the maximum size (participant indices up to 253, far
+// beyond the simulator's n <= 7): each sampled receiver's End() must return the group key A_0, every one
+// of the n public key shares equal to the reference evaluation of the broadcast vector at that index,
+// and a private share matching its public share; (so receivers agree with each other).
+func dkgLargeGroups(run *mon.Run) {
+	r := run.Rand("large-groups")
+	cv := measuredConv()
+	groups := [][2]int{{254, 1}, {254, 2}, {200, 3}, {129, 2}}
+	if !run.Quick() {
+		groups = append(groups, [2]int{254, 7}, [2]int{253, 4}, [2]int{172, 5}, [2]int{171, 1}, [2]int{255 - 1, 126})
+	}
+	for _, g := range groups {
+		n, t := g[0], g[1]
+		for _, proto := range []string{"FeldmanVSS", "FeldmanVSSQual"} {
+			dealerIdx := []int{0, n - 1, r.IntN(n)}[r.IntN(3)]
+			mk := func(id int, pr crypto.DKGProcessor) (crypto.DKGState, error) {
+				if proto == "FeldmanVSS" {
+					return crypto.NewFeldmanVSS(n, t, id, pr, dealerIdx)
+				}
+				return crypto.NewFeldmanVSSQual(n, t, id, pr, dealerIdx)
+			}
+			rep := map[string]any{"n": n, "t": t, "protocol": proto, "dealer": dealerIdx}
+			dp := newLgProc()
+			dealer, err := mk(dealerIdx, dp)
+			if err != nil {
+				run.Violate("C07:large-group:constructor", err.Error(), rep)
+				continue
+			}
+			if err := dealer.Start(mon.RandBytes(r, 32)); err != nil || len(dp.bcast) == 0 {
+				run.Violate("C07:large-group:start", fmt.Sprintf("dealer Start: %v, %d broadcasts", err, len(dp.bcast)), rep)
+				continue
+			}
+			pts, why := refVector(dp.bcast[0], t, cv)
+			if pts == nil {
+				run.Violate("C07:large-group:vector", "the honest dealer's vector is not well formed: "+why, rep)
+				continue
+			}
+			want := make([][]byte, n)
+			for j := 0; j < n; j++ {
+				want[j] = ref.EncodeG2(evalVector(pts, int64(j+1)), cv)
+			}
+			recv := map[int]bool{(dealerIdx + 1) % n: true, 127 % n: true, 128 % n: true, 169 % n: true, 170 % n: true, 171 % n: true, n - 1: true, r.IntN(n): true}
+			delete(recv, dealerIdx)
+			for id := range recv {
+				rp := newLgProc()
+				in, err := mk(id, rp)
+				if err != nil {
+					continue
+				}
+				var sk crypto.PrivateKey
+				var gpk crypto.PublicKey
+				var pks []crypto.PublicKey
+				var endErr error
+				if run.Guard("large-group receiver", rep, func() {
+					_ = in.Start(mon.RandBytes(r, 32))
+					_ = in.HandleBroadcastMsg(dealerIdx, dp.bcast[0])
+					_ = in.HandlePrivateMsg(dealerIdx, dp.shares[id])
+					if proto != "FeldmanVSS" {
+						_ = in.NextTimeout()
+						_ = in.NextTimeout()
+					}
+					sk, gpk, pks, endErr = in.End()
+				}) {
+					continue
+				}
+				run.Eval(1)
+				run.Count("large-group.receivers", 1)
+				if endErr != nil || len(rp.ev) > 0 || len(rp.bcast) > 0 {
+					run.Violate("C07:large-group:honest-dealing-refused", fmt.Sprintf("receiver %d of n=%d: End error %v, callbacks %v, %d broadcasts", id, n, endErr, rp.ev, len(rp.bcast)), rep)
+					continue
+				}
+				if !bytes.Equal(gpk.Encode(), ref.EncodeG2(pts[0], cv)) {
+					run.Violate("C07:large-group:group-key", fmt.Sprintf("receiver %d: group key is not A_0", id), rep)
+				}
+				for j := 0; j < n; j++ {
+					if !bytes.Equal(pks[j].Encode(), want[j]) {
+						run.Violate(fmt.Sprintf("C07:large-group:public-share:index-%s", idxClass(j)), fmt.Sprintf("receiver %d of n=%d t=%d: public key share %d differs from the vector evaluated at %d", id, n, t, j, j+1), rep)
+						break
+					}
+				}
+				if !sk.PublicKey().Equals(pks[id]) || !bytes.Equal(sk.PublicKey().Encode(), want[id]) {
+					run.Violate("C07:large-group:private-share-mismatch", fmt.Sprintf("receiver %d: private share does not match its public share", id), rep)
+				}
+				run.Shape(fmt.Sprintf("large-group|%s|n%d|t%d|recv-%s", proto, n, t, idxClass(id)))
+			}
+		}
+	}
+	run.Require(run.Counter("large-group.receivers") >= 20, "fewer than 20 large-group receivers completed")
+}
+
+// lgProc records what one instance of a large-group run sends and reports.
+type lgProc struct {
+	shares map[int][]byte
+	bcast  [][]byte
+	ev     []string
+}
+
+func newLgProc() *lgProc                            { return &lgProc{shares: map[int][]byte{}} }
+func (p *lgProc) PrivateSend(dest int, data []byte) { p.shares[dest] = append([]byte{}, data...) }
+func (p *lgProc) Broadcast(data []byte)             { p.bcast = append(p.bcast, append([]byte{}, data...)) }
+func (p *lgProc) Disqualify(i int, l string) {
+	p.ev = append(p.ev, fmt.Sprintf("disqualify %d: %s", i, l))
+}
+func (p *lgProc) FlagMisbehavior(i int, l string) {
+	p.ev = append(p.ev, fmt.Sprintf("flag %d: %s", i, l))
+}
+
+func idxClass(j int) string {
+	switch {
+	case j < 8:
+		return "lt8"
+	case j < 128:
+		return "lt128"
+	case j < 170:
+		return "lt170"
+	default:
+		return "ge170"
+	}
+}
+
 // C07: DKG agreement.
 func C07(run *mon.Run) {
 	run.Rule = "seeded scenarios (protocol, n<=7, t, <=t Byzantine puppets with scripts from the message grammar, scheduler coins) executed on real instances under the round-synchronous delivery model; shape = (protocol, n, t, #Byzantine, set of order/behaviour features the schedule actually exercised); distinct delivery orders counted by hash"
 	run.Assumptions = []string{"delivery model of DESIGN.md A.1: every broadcast lands in the same round at every honest receiver, FIFO per sender; messages emitted at a round's first instant land in that round, reactive ones in that round or the next", "at most t Byzantine participants; liveness is not claimed"}
 	dkgDrive(run, "C07")
+	dkgLargeGroups(run)
 	run.Require(run.Counter("end.ok") >= 50 && run.Counter("end.dkg-failure") >= 50, "both honest outcomes (keys / DKG failure) not seen at least 50 times")
 }
 
